@@ -1,0 +1,35 @@
+//! Verification hooks (compiled only with `--cfg daachorse_verif`): safe, bounds-checked access
+//! to the automaton's own transition functions for an arbitrary in-range state index.
+
+use super::CharwiseDoubleArrayAhoCorasick;
+
+impl<V> CharwiseDoubleArrayAhoCorasick<V> {
+    /// Number of double-array elements.
+    pub fn verif_num_slots(&self) -> usize {
+        self.states.len()
+    }
+
+    /// The code the mapper assigns to `c`, if any.
+    pub fn verif_code(&self, c: char) -> Option<u32> {
+        self.mapper.get(c)
+    }
+
+    /// `child_index_unchecked` for an in-range `idx` and a mapped character.
+    pub fn verif_child(&self, idx: u32, c: char) -> Option<u32> {
+        assert!((idx as usize) < self.states.len());
+        let mapped = self.mapper.get(c)?;
+        unsafe { self.child_index_unchecked(idx, mapped) }
+    }
+
+    /// `next_state_id_unchecked` for an in-range `idx`.
+    pub fn verif_next_state(&self, idx: u32, c: char) -> u32 {
+        assert!((idx as usize) < self.states.len());
+        unsafe { self.next_state_id_unchecked(idx, c) }
+    }
+
+    /// `next_state_id_leftmost_unchecked` for an in-range `idx`.
+    pub fn verif_next_state_leftmost(&self, idx: u32, c: char) -> u32 {
+        assert!((idx as usize) < self.states.len());
+        unsafe { self.next_state_id_leftmost_unchecked(idx, c) }
+    }
+}
